@@ -242,8 +242,9 @@ def features_of(e, case, idx):
             "event": e["ev"]}
 
 
-def decide(ctx: Ctx, cases: list[str]):
-    """cases: JSON texts of process histories."""
+def decide(ctx: Ctx, cases: list[str], cfg: str = "SatTrace"):
+    """cases: JSON texts of process histories.  cfg: SatTrace (truth tables over a..g) or SatTrace3 (a..c: cheaper
+    for the many histories that use at most three variables)."""
     prepare_imports()
     import tools.rect.satmanager  # noqa: F401  (imported in the parent, never used there: the store stays pristine)
     results = run_cases(run_process, cases, nproc=16, fresh=True)
@@ -265,7 +266,7 @@ def decide(ctx: Ctx, cases: list[str]):
             t["id"] = key
             traces[key] = t
             owners[key] = {"case": cj, "errs": [o.get("err") for o in val]}
-    verdicts = tlc.validate_traces(ctx, "SatTrace", "SatTrace", list(traces.values()), chunk=4000)
+    verdicts = tlc.validate_traces(ctx, "SatTrace", cfg, list(traces.values()), chunk=6000)
     for key, v in verdicts.items():
         t, own = traces[key], owners[key]
         full = 1 << len(t["vars"])
@@ -327,21 +328,23 @@ def run(ctx: Ctx) -> int:
     cfgs = [("wide", allk), ("amo", ("amo",)), ("seq", ("amo", "pb"))]
     if tier == "thorough":
         cfgs = [("wide", allk), ("amo", ("amo",)), ("seq", allk), ("amo2", ("amo",)), ("seq3", ("pb",))]
-    cases, singles, wide_names = [], [], []
+    small, big, singles, wide_names = [], [], [], []
     for name, kinds in cfgs:
         hs = _mc(ctx, f"SatLayer_{tier}_{name}", kinds)
         names = V7 if name.startswith("amo") else V7[:2] if (name, tier) == ("wide", "quick") else V7[:3]
         for h in hs:
-            cases.append(json.dumps({"vars": names, "detail": 1, "events": with_solves(h["events"], names, rng), "src": name}))
+            (big if len(names) > 3 else small).append(
+                json.dumps({"vars": names, "detail": 1, "events": with_solves(h["events"], names, rng), "src": name}))
         if name == "wide":
             singles, wide_names = [h["events"][-1]["c"] for h in hs], names
         del hs
-    n_tlc = len(cases)
+    n_tlc = len(small) + len(big)
     hist = history_cases(singles, wide_names, rng, tier)
     if tier == "quick":
         hist = rng.sample(hist, min(len(hist), 1500))
     rnd = random_cases(rng, 1500 if tier == "quick" else 30000)
-    ntr = decide(ctx, cases + [json.dumps(c) for c in hist + rnd])
+    ntr = decide(ctx, small + [json.dumps(c) for c in hist], "SatTrace3")
+    ntr += decide(ctx, big + [json.dumps(c) for c in rnd], "SatTrace")
     ctx.extra["cases_from_tlc"] = n_tlc
     ctx.extra["history_cases"] = len(hist)
     ctx.extra["random_cases"] = len(rnd)
